@@ -6,6 +6,7 @@ git -C /repo apply /verif/seeded/$sid/patch.diff || { echo "apply failed"; exit 
 python3-vt run/check.py $prop --tier quick "$@" > .target/seed_$sid.out 2> .target/seed_$sid.err; rc=$?
 git -C /repo checkout -- .
 git -C /verif checkout -- evidence 2>/dev/null
+git -C /verif clean -fdq evidence/replay 2>/dev/null   # replay files written by the seeded run are not evidence of the real tree
 echo "$sid rc=$rc $(grep -c VIOLATION .target/seed_$sid.out) violation lines; $(grep -m3 VIOLATION .target/seed_$sid.out | tr '\n' ' ')"
 tail -2 .target/seed_$sid.err
 # rebuild the helper binaries from the restored tree so later manual experiments do not use a seeded build
